@@ -142,6 +142,7 @@ func check(c Case, o *vf.Obs) error {
 		n = mv
 	}
 	var txt string
+	optimised := false // the solver printed has run an optimisation: it may hold bounds on the cost besides the problem
 	if c.SolveFirst && c.Printer != "solver-pbstring" {
 		o.Class("problem-printed-after-a-solver-used-it")
 		used := solver.New(pb)
@@ -166,6 +167,19 @@ func check(c Case, o *vf.Obs) error {
 		for _, st := range c.Steps {
 			if st.Kind == "solve" {
 				s.Solve()
+				continue
+			}
+			if st.Kind == "minimize" || st.Kind == "optimal" {
+				// an optimisation adds bound constraints to the solver: it then holds the problem plus those bounds
+				if pb.Optim() && pb.Status != solver.Unsat {
+					if st.Kind == "minimize" {
+						s.Minimize()
+					} else {
+						s.Optimal(nil, nil)
+					}
+					optimised = true
+					o.Class("printed-after-an-optimisation")
+				}
 				continue
 			}
 			ls := make([]solver.Lit, len(st.Lits))
@@ -210,6 +224,19 @@ func check(c Case, o *vf.Obs) error {
 		return fmt.Errorf("the rendering (%s) read back has %d variables, the problem has %d\n--- text ---\n%s", c.Printer, pb2.NbVars, n, txt)
 	}
 	got := oracle.Models(n, gs.ProblemPred(pb2)) // variables the text does not mention are free
+	if optimised {
+		// the bounds an optimisation added may exclude models, never admit new ones
+		isModel := map[uint64]bool{}
+		for _, m := range want {
+			isModel[m] = true
+		}
+		for _, m := range got {
+			if !isModel[m] {
+				return fmt.Errorf("the rendering (%s, after an optimisation) read back accepts %0*b, which is not a model of the problem\n--- text ---\n%s", c.Printer, n, m, txt)
+			}
+		}
+		want = got
+	}
 	if !reflect.DeepEqual(got, want) {
 		return fmt.Errorf("the rendering (%s) read back has %d models over %d variables, the problem has %d\n--- text ---\n%s", c.Printer, len(got), n, len(want), txt)
 	}
@@ -300,7 +327,9 @@ func genCase(t *rapid.T) Case {
 	// so two solvers made from one Problem share their bindings on the unchanged tree - see DESIGN 0.5, decision 18)
 	if c.Printer == "solver-pbstring" {
 		for i, k := 0, rapid.IntRange(0, 3).Draw(t, "steps"); i < k; i++ {
-			if rapid.Bool().Draw(t, "isSolve") {
+			if c.Cost != nil && gen.Chance(t, 1, 3, "optimise") {
+				c.Steps = append(c.Steps, Step{Kind: rapid.SampledFrom([]string{"minimize", "optimal"}).Draw(t, "entry")})
+			} else if rapid.Bool().Draw(t, "isSolve") {
 				c.Steps = append(c.Steps, Step{Kind: "solve"})
 			} else {
 				c.Steps = append(c.Steps, Step{Kind: "clause", Lits: gen.DistinctLits(t, c.N, rapid.IntRange(1, 3).Draw(t, "len"), "l")})
@@ -312,7 +341,7 @@ func genCase(t *rapid.T) Case {
 
 func init() {
 	vf.Register(vf.Sub[Case]{Name: "roundtrip", Quick: 20000, Thorough: 250000, Gen: genCase, Check: check, Floor: 0.25,
-		Rule: "problems from ParseSliceNb / ParseCNF / ParseCardConstrs / ParsePBConstrs / ParseOPB (n<=8, odd clause shapes, trivially true/false constraints, parse-time Sat and Unsat), with or without cost function; printers: Problem.CNF() (propositional problems), Problem.PBString(), Solver.PBString() after 0..3 Solve/AppendClause steps, explain.Problem.CNF(); in a third of the cases the problem is printed after a solver made from it has solved / optimised it; each text must satisfy the harness's strict recogniser of its format, parse back without error, and the re-parsed problem (evaluated without solving, unmentioned variables free) must have exactly the original models over the original variables; costs compared on up to 3 drawn assignments by pinning them with unit constraints in the re-parsed text; non-trivial = rendering with units and non-unit constraints, or with a cost function"})
+		Rule: "problems from ParseSliceNb / ParseCNF / ParseCardConstrs / ParsePBConstrs / ParseOPB (n<=8, odd clause shapes, trivially true/false constraints, parse-time Sat and Unsat), with or without cost function; printers: Problem.CNF() (propositional problems), Problem.PBString(), Solver.PBString() after 0..3 Solve/AppendClause/Minimize/Optimal steps (after an optimisation the solver also holds bounds on the cost: the models read back must then be models of the problem, with their cost), explain.Problem.CNF(); in a third of the cases the problem is printed after a solver made from it has solved / optimised it; each text must satisfy the harness's strict recogniser of its format, parse back without error, and the re-parsed problem (evaluated without solving, unmentioned variables free) must have exactly the original models over the original variables; costs compared on up to 3 drawn assignments by pinning them with unit constraints in the re-parsed text; non-trivial = rendering with units and non-unit constraints, or with a cost function"})
 }
 
 func TestMain(m *testing.M)   { vf.Main(m, "C18") }
